@@ -623,6 +623,7 @@ func cmdCheck(args []string) {
 	}
 	fmt.Printf("property %s tier %s: %d functions, %d obligations, %d discharged, %d violation(s), %d known finding(s), %.1fs\n",
 		*prop, *tier, len(keys), nObl, nDis, violations, len(knownLines), time.Since(start).Seconds())
+	os.RemoveAll(wd) // os.Exit does not run the deferred removal
 	os.Exit(exit)
 }
 
